@@ -57,7 +57,7 @@ def rewrite_sink(body, u):
         if not mm:
             raise CutError('write_all call of unexpected shape: ' + inner[:80])
         fnm = 'vw_write' if mm.group(2) == 'be' else 'vw_write_le'
-        rep = f'{fnm}(writer, {mm.group(1).strip()})' + '\n' * body[m.start():cl + 1].count('\n')
+        rep = f'{fnm}(writer, ' + re.sub(r'\s+', ' ', mm.group(1).strip()) + ')' + '\n' * body[m.start():cl + 1].count('\n')
         body = body[:m.start()] + rep + body[cl + 1:]
         n += 1
     u.drop('std::io::Write::write_all(writer, &x.to_be_bytes())? -> vw_write(writer, x)? (trusted sink model)', n)
